@@ -26,6 +26,13 @@ func specMs(d time.Duration) float64 { return ConvertDurationToMs(d) }
 //@ ensures[C08.count]     ret0 == ite(p.MinTTL > p.MaxTTL, 0, int(p.MaxTTL)-int(p.MinTTL)+1)
 //@ modifies nothing
 
+// the listening budget of a parallel run: the timeout plus one send delay per probe (C08: "listening timeout plus per-probe delays")
+//@ func (TracerouteParallelParams).MaxTimeout
+//@ pure
+//@ safety C08
+//@ ensures[C08.par.budget]  ret0 == p.TracerouteTimeout + nlmul(p.SendDelay, time.Duration(p.ProbeCount()))
+//@ modifies nothing
+
 //@ func clipResults
 //@ inline
 //@ requires[pre.len]       int(minTTL) < len(results)
